@@ -518,6 +518,22 @@ func c06Check(c C06Case) *pbt.Violation {
 	if p.ID != c.ID || !bytes.Equal(p.Data, all.B) {
 		return pbt.V("c06.marshal", "Marshal composes fields in order", "Marshal: id %d data % x, want id %d % x", p.ID, clipB(p.Data), c.ID, clipB(all.B))
 	}
+	// a later, unrelated Marshal must not disturb a packet already handed out
+	filler := bytes.Repeat([]byte{0xEE}, len(all.B)+9)
+	var q pk.Packet
+	if pv, stack := pbt.Try(func() { q = pk.Marshal(c.ID+1, pk.ByteArray(filler), pk.VarInt(-1)) }); pv != nil {
+		return pbt.V(pbt.PanicKey("c06.marshal", stack), "no panic", "second Marshal panicked: %v\n%s", pv, stack)
+	}
+	if !bytes.Equal(p.Data, all.B) {
+		return pbt.V("c06.marshal.aliased", "Marshal composes fields in order (the packet stays what was marshalled)",
+			"packet data changed after an unrelated later Marshal call: now % x, was % x", clipB(p.Data), clipB(all.B))
+	}
+	var qw wire.W
+	qw.String(filler)
+	qw.VarInt(-1)
+	if q.ID != c.ID+1 || !bytes.Equal(q.Data, qw.B) {
+		return pbt.V("c06.marshal", "Marshal composes fields in order", "second Marshal: id %d data % x, want id %d % x", q.ID, clipB(q.Data), c.ID+1, clipB(qw.B))
+	}
 	var b pk.Builder
 	for _, e := range encs {
 		b.WriteField(e)
@@ -668,6 +684,11 @@ func genLeaf(t *rapid.T, k string) F {
 		f.U = gen.F64Bits(t, false, "double")
 	case "string", "bytearray", "plugin":
 		f.S = genBytes(t, k)
+		if k == "string" && rapid.IntRange(0, 50).Draw(t, "wide") == 23 {
+			// protocol limit is 32767 characters, i.e. up to 3*32767 bytes of UTF-8
+			n := rapid.SampledFrom([]int{10923, 16384, 20000, 32767}).Draw(t, "wide_n")
+			f.S = bytes.Repeat([]byte("\u4e16"), n)
+		}
 	case "position":
 		f.P = [3]int64{genPos(t, 26, "x"), genPos(t, 12, "y"), genPos(t, 26, "z")}
 	case "uuid":
@@ -811,6 +832,10 @@ var c06Prop = pbt.Register(pbt.Prop[C06Case]{
 				seen["len_"+f.Len] = true
 				labels = append(labels, "arylen_"+f.Len)
 			}
+			if f.K == "string" && len(f.S) > 32767 && !seen["wide"] {
+				seen["wide"] = true
+				labels = append(labels, "string_over_32767_bytes")
+			}
 			if f.Pre != nil {
 				pc := "prestate_" + preClass(f)
 				if !seen[pc] {
@@ -847,6 +872,9 @@ func singleKey(t *rn.Tag) {
 	}
 	if t.Type == rn.List && len(t.L) == 0 {
 		t.Elem = rn.End // []any{} has no element type
+	}
+	if t.Type == rn.Float && t.F&0x7f800000 == 0x7f800000 && t.F&0x007fffff != 0 {
+		t.F |= 0x00400000 // a float32 signalling NaN cannot be carried in a Go value through reflect (as in C01)
 	}
 	for _, e := range t.L {
 		singleKey(e)
